@@ -41,8 +41,8 @@ ASSUMPTIONS = [
     "std/var with ddof != 0 never use Numba (by design of the library) and are compared all the same",
 ]
 BOUND = {
-    "quick": "(c) every ordered pair of helpers in one aggregate call on float/int/date x 16 battery frames x 2x2 argument choices; (a) 1..3 rows (mode: 1..4) x groups {1,2}^n over 3-4 value alphabets for every (helper, dtype in bool,int64,uint8,float,date,datetime) pair it accepts; (b) all ordered pairs of 9 first-uses (7 kernel-family representatives on float64 + first/int64, max/date, mode/bool): one process with cache off; the 30 ordered pairs of 6 of them split across two processes sharing a cache",
-    "thorough": "(c) as quick on all five dtypes; (a) 1..4 rows, plus timedelta64 (a subclass of signed integer for np.issubdtype); (b) all ordered pairs of all 16 helpers on each of float/int/bool/date x cache {off, cold, warmed by an earlier process}; all ordered triples of the 7 representatives; all ordered cross-dtype pairs of the representatives",
+    "quick": "(c) every ordered pair of helpers in one aggregate call on float/int/date x 16 battery frames x 2x2 argument choices; (a) 1..3 rows (mode: 1..4) x groups {1,2}^n over 3-4 value alphabets for every (helper, dtype in bool,int64,uint8,float,date,datetime) pair it accepts; (b) all ordered pairs of 9 first-uses (7 kernel-family representatives on float64 + first/int64, max/date, mode/bool): one process with cache off; the 30 ordered pairs of 6 of them split across two processes sharing a cache; extreme magnitudes (1.7e308, 1.6e308, -1.7e308, 5e-324, 1.5e-323, NA) in 1..3 rows for every helper on float64; byte-swapped columns",
+    "thorough": "(c) as quick on all five dtypes; (a) 1..4 rows, plus timedelta64 (a subclass of signed integer for np.issubdtype); (b) all ordered pairs of all 16 helpers on each of float/int/bool/date x cache {off, cold, warmed by an earlier process}; all ordered triples of the 7 representatives; all ordered cross-dtype pairs of the representatives; plus the additions listed for the quick tier",
 }
 TIME_CAP = {"quick": 600, "thorough": 6000}
 MAXTASKS = None
